@@ -190,7 +190,12 @@ def false_issue_signature(m, issue, vi):
             while n is not None and n.parent is not None and len(anc) < 3:
                 n = n.parent
                 anc.append(n.type)
-            dec.append('parents=' + '/'.join(anc))
+            if "use starred expression here" in msg and anc[:2] == ['star_expr', 'atom'] and len(anc) > 2 \
+                    and anc[2] in ('trailer', 'arglist', 'argument'):
+                # one root cause wherever it occurs: `f((*a))` / `f((*a), b)` is accepted by CPython <= 3.8
+                dec = ['parenthesised-star-as-call-argument']
+            else:
+                dec.append('parents=' + '/'.join(anc))
         if 'async generator' in msg:
             # is every yield of the function in its parameter defaults / annotations?
             leaf = leaf_starting_at(m, issue.start_pos)
